@@ -429,7 +429,12 @@ func (v *fnVC) unop(i *ssa.UnOp, st *State) {
 			p := v.val(i.X)
 			v.safetyOb("nil-deref", i.Pos(), mk(sapp("not", sapp("=", p.S, "0")), sBool))
 		}
-		t := v.load(i.X, i.Type(), st)
+		lst := st
+		if g, _, ok := rootGlobal(i.X); ok && !v.w.globMutated[g] {
+			// a package variable that is never reassigned: its value is the entry value
+			lst = v.e.newState()
+		}
+		t := v.load(i.X, i.Type(), lst)
 		r := v.bind(i, t)
 		v.assumeWellFormed(r, st)
 	case token.NOT:
